@@ -126,6 +126,9 @@ func (o *OutputCollector) Emit(batch arrow.RecordBatch) error {
 // per-batch annotations such as vgi_batch_index and vgi_partition_values#b64.
 func (o *OutputCollector) EmitWithMetadata(batch arrow.RecordBatch, meta map[string]string) error {
 	if o.dataBatchIdx >= 0 {
+		// Ownership was handed over with the call; a refused batch is dropped
+		// here, not leaked.
+		batch.Release()
 		return fmt.Errorf("OutputCollector: only one data batch may be emitted per call")
 	}
 	if o.EmitInterceptor != nil {
